@@ -443,6 +443,7 @@ def run(ctx):
         "pragmatic writer writes every route and the unassigned list (P3). Functions that move jobs INTO a place clean the places the jobs can come from "
         "(reasoned move table: no duplication, P6); in every function that drops empty tours no state acceptance can follow the drop (P5); every leg enumeration of "
         "the leg search honours the start index, so sub-jobs of a multi job are placed left to right (O1); no comparison in matching code relates a value to itself (Q1).")
+    ctx.explanation += ' Relation-bound jobs are excluded from clustering on every alternative (X1, must-derive); shifts are enumerated before any dropping adapter, so a shift index is a position in vehicle.shifts (X2).'
     ctx.not_decided = "exact-once semantics through value-level bookkeeping (a wrong predicate in a retain), vehicle/shift existence, break/reload identity."
     ctx.assumptions += ["job places are the four SolutionContext collections and tours; std collection method names classify removal/arrival"]
     ctx.run("C02-P1", "jobs removed from one place arrive in another (pairing with guard neighbourhood and reasoned table)", p1_pairing, floor=25)
